@@ -29,6 +29,7 @@ the device before and after a real write, for every offset class.
 import PyFatModel.Proofs.FatIO
 import PyFatModel.Proofs.FatIOWrite
 import PyFatModel.Proofs.FsData
+import PyFatModel.Proofs.SeekBridge
 import PyFatModel.Proofs.Geom
 
 open Model.FatIO
@@ -54,6 +55,18 @@ theorem c02_read_loop (bpc : Nat) (hb : 0 < bpc) (cs : List (List Nat)) (off n :
     (hu : Proofs.FatIO.Uniform bpc cs) (hoff : off ≤ bpc) (hn : 0 < n) (hfit : off + n ≤ cs.length * bpc) :
     readLoop bpc cs off n = (cs.flatten.drop off).take n :=
   Proofs.FatIO.readLoop_eq_slice bpc hb cs off n hu hoff hn hfit
+
+/-- the cursor model is the translated source: `Model.FatIO.seekCursor` (on which every theorem here and the
+    FAT side of writes rest) computes the values the body of `FatIO.seek` — translated from `/repo` on every run —
+    assigns to `__bpos`, `__coffpos`, `__cindex` (clamp to the size, division by the cluster size, end-of-cluster
+    adjustment), for every cluster size, file size and target -/
+theorem c02_cursor_is_translated_seek (bpc size off : Nat) (junk : Int) :
+    ((seekCursor bpc size off).bpos : Int) = Gen.Arith.seek_bpos (offset := off) (filesize := size) ∧
+    ((seekCursor bpc size off).coffpos : Int) =
+      Gen.Arith.seek_coffpos (offset := off) (filesize := size) (bytes_per_cluster := bpc) ∧
+    ((seekCursor bpc size off).cindex : Int) =
+      Gen.Arith.seek_cindex (offset := off) (filesize := size) (cindex := junk) (bytes_per_cluster := bpc) :=
+  Proofs.SeekBridge.seekCursor_is_source bpc size off junk
 
 /-- the write touches exactly the bytes `[pos, pos + |bs|)` of the file's clusters -/
 theorem c02_write_replaces_range (bpc : Nat) (hb : 0 < bpc) (cs : List (List Nat)) (hu : Proofs.FatIO.Uniform bpc cs)
